@@ -932,6 +932,20 @@ def g5(ctx, R):
     else:
         ctx.violation("G5", cna, "failed-not-raised", "a failed argument match can end without BadArgument being raised", node=sets[0].ast,
                       witness="`redirect 10;` (ill-typed required argument) is accepted")
+    # an argument that no remaining slot accepts must not be accepted: the scan loop's exhausted exit never reaches `return True`
+    loops = [lp for lp in walk_no_nested(cna.node) if isinstance(lp, ast.While)]
+    for lp in loops:
+        for fc in cfg.facts():
+            if fc.site is lp and fc.pol is False and fc.expr is lp.test:
+                r = cfg.reach(fc, exc=False)
+                trues = [x for x in r if x.kind == "stmt" and isinstance(x.ast, ast.Return) and const_value(ctx.program, cna, x.ast.value) is True]
+                top_guard = any(isinstance(n_, ast.If) and isinstance(n_.test, ast.Call) and call_name(n_.test) == "iscomplete" for n_ in cna.node.body)
+                if trues and not top_guard:
+                    ctx.violation("G5", cna, "scan-exhausted-accepts", "when no remaining slot accepts the argument the scan ends and check_next_arg "
+                                  "returns True: the surplus argument is silently dropped", node=lp,
+                                  witness='`keep "x";` is accepted')
+                else:
+                    ctx.holds("G5", "%s: an argument that no slot accepts is refused" % cna.qualname)
     # leaving the scan without a match must not count as success for a complete-less command: the while loop's normal exit
     # is reached only with pos >= len(args_definition): that means surplus argument -> handled by iscomplete() guard at the top
 
